@@ -13,7 +13,7 @@ import struct
 class Fn:
     __slots__ = ("d", "id", "stable", "kind", "parent", "loc", "blocks", "locals", "argc",
                  "unit", "names", "debug", "_calls", "crate", "witnesses", "unsafe_block",
-                 "unsafe_fn", "pretty", "vis")
+                 "unsafe_fn", "pretty", "vis", "upvar_names")
 
     def __init__(self, d, unit):
         self.d = d
@@ -38,6 +38,16 @@ class Fn:
             p = dbg["p"]
             if not p["proj"]:
                 self.names.setdefault(p["l"], dbg["name"])
+        # closure / coroutine captures: `debug name => (*_1).k` gives capture k its source name
+        self.upvar_names = {}
+        for dbg in self.debug:
+            p = dbg["p"]
+            if p["l"] == 1 and p["proj"]:
+                fields = [e for e in p["proj"] if e["k"] == "field"]
+                if len(fields) == 1 and all(e["k"] in ("field", "deref") for e in p["proj"]):
+                    self.upvar_names.setdefault(fields[0]["i"], dbg["name"])
+        if self.upvar_names:
+            self.names["__upvars__"] = self.upvar_names
         self._calls = None
 
     @property
